@@ -243,6 +243,8 @@ def setup(ctx):
 
 def cases(ctx):
     rnd = ctx.rnd
+    if ctx.shard == ctx.nshards - 1:
+        yield ('repo-tests',)
     if ctx.shard == 0:
         for src, body in [('shout = v => upper(v)\nshout("x")\nupper = v => "shadowed"\nshout("x")', None), ('g = (s, len) => len(s)\n[g("ab"), g("ab", v => 99)]', None),
                           ('tri = n => 0 if n == 0 else tri(n - 1) + n\ntri(5)', None), ('f = v => nope + v\ntry_(f, 1)\nz = 5\nz', None),
@@ -257,6 +259,19 @@ def run_case(case, ctx):
     from smartquery.exceptions import ParserError
     from smartquery.ast_ops import LambdaOp, NameOp
     from checks.c07 import same, names_same
+    if case[0] == 'repo-tests':
+        # the repository's own tests as a workload for the scope monitors (depth at entry == depth at exit/raise of every node, outer bindings untouched,
+        # builtin table unchanged); the tests' assertions are not the oracle, the monitors are
+        from lib import repotests
+        W = ctx.W
+        W.stack, W.viol, W.recursion, W.case, W.src = [], None, False, case, '(repository tests)'
+        passed, failed = repotests.run(ctx)
+        if W.viol is not None and not W.recursion:
+            ctx.violation(W.viol[0], case, finding=W.viol[1], detail=dict(W.viol[2], workload='repository test-suite, %d tests passed' % passed))
+        if [(k, id(v)) for k, v in ctx.functions.FUNCTIONS.items()] != ctx.table_snapshot:
+            ctx.violation('the builtin table was modified', case, detail={'workload': 'repository test-suite'})
+        W.stack, W.viol = [], None
+        return
     if case[0] == 'src':
         src, body = case[1], case[2]
     else:
